@@ -1,7 +1,8 @@
 (* Proofs/C04Sound.v — what an OK verdict of the C04 comparator (Check/C04.v) MEANS.
    The comparator is an extracted Gallina function; these theorems turn "check_C04 line returned OK"
    into a statement about the observed Go outputs and the model values of Model/TTest.v (and, through
-   Proofs/TTest.v, the textbook formulas).  Everything is over Z/Q/lists and closed under the global context.
+   Proofs/TTest.v, the textbook formulas).  Everything is over Z/Q/lists and closed under the global context, except the last section
+   (near_signed_root_real, check_test_ok_T_real), which restates the T clause over the stdlib reals.
    [ok v] is "the head of the verdict line is V_OK"; test_sound / ci_sound / case_sound spell out what is certified. *)
 From MM Require Import Base.Num Model.TTest Proofs.TTest Check.C04.
 From Coq Require Import Field Lqa Setoid Morphisms.
@@ -616,3 +617,123 @@ Print Assumptions check_ci_ok_sound.
 Print Assumptions check_ci_mean_textbook.
 Print Assumptions ci_content_approx.
 Print Assumptions check_C04_ok_sound.
+
+(* ====================================================================== *)
+(* the real-number reading of near_signed_root (this part, and only this part, uses the stdlib reals: *)
+(* Print Assumptions shows the three standard axioms of Coq's classical real numbers)                *)
+(* ====================================================================== *)
+From Coq Require Import Reals Qreals Lra.
+Local Open Scope R_scope.
+
+(* rational brackets of a non-negative real, as fine as wanted *)
+Lemma rational_bracket (r eps : R) : 0 <= r -> 0 < eps ->
+  exists lo hi : Q, (0 <= lo)%Q /\ Q2R lo <= r /\ r <= Q2R hi /\ Q2R hi - Q2R lo < eps.
+Proof.
+  intros Hr He. destruct (archimed_cor1 eps He) as (N & HN & HN0).
+  set (n := Pos.of_nat N).
+  assert (En : IZR (Zpos n) = INR N).
+  { rewrite INR_IZR_INZ. f_equal. rewrite <- positive_nat_Z. unfold n. now rewrite Nat2Pos.id by lia. }
+  assert (Hn : 0 < IZR (Zpos n)) by (apply IZR_lt; lia).
+  destruct (archimed (r * IZR (Zpos n))) as [U1 U2]. set (k := up (r * IZR (Zpos n))) in *.
+  assert (Hk : (1 <= k)%Z).
+  { assert (0 < k)%Z; [|lia]. apply lt_IZR. assert (0 <= r * IZR (Z.pos n)) by (apply Rmult_le_pos; lra). lra. }
+  exists ((k - 1) # n)%Q, (k # n)%Q. unfold Q2R. cbn [Qnum Qden]. repeat split.
+  - unfold Qle. cbn. lia.
+  - rewrite minus_IZR. apply Rmult_le_reg_r with (IZR (Z.pos n)); [exact Hn|]. field_simplify; lra.
+  - apply Rmult_le_reg_r with (IZR (Z.pos n)); [exact Hn|]. field_simplify; lra.
+  - rewrite minus_IZR. rewrite En in *. replace (IZR k * / INR N - (IZR k - 1) * / INR N) with (/ INR N) by (field; lra). exact HN.
+Qed.
+
+Lemma Q2R_zero : Q2R 0 = 0.
+Proof. unfold Q2R. cbn. ring. Qed.
+Lemma Q2R_inject_Z z : Q2R (inject_Z z) = IZR z.
+Proof. unfold Q2R, inject_Z. cbn. rewrite Rinv_1. ring. Qed.
+Lemma Q2R_nonneg a : (0 <= a)%Q -> 0 <= Q2R a.
+Proof. intros H. apply Qle_Rle in H. now rewrite Q2R_zero in H. Qed.
+Lemma Qmax_cases_R a b c : (c <= Qmax a b)%Q -> Q2R c <= Q2R a \/ Q2R c <= Q2R b.
+Proof. intros H. destruct (Q.max_spec a b) as [[_ E]|[_ E]]; rewrite E in H; apply Qle_Rle in H; auto. Qed.
+Lemma Qmin_cases_R a b c : (Qmin a b <= c)%Q -> Q2R a <= Q2R c \/ Q2R b <= Q2R c.
+Proof. intros H. destruct (Q.min_spec a b) as [[_ E]|[_ E]]; rewrite E in H; apply Qle_Rle in H; auto. Qed.
+Lemma Rabs_bounds a b : Rabs a <= b -> - b <= a <= b.
+Proof. unfold Rabs. destruct (Rcase_abs a); lra. Qed.
+Lemma mul_close (a e r d : R) : Rabs (e - r) <= d ->
+  a * e <= a * r + Rabs a * d /\ a * r - Rabs a * d <= a * e.
+Proof.
+  intros H. assert (B : Rabs (a * (e - r)) <= Rabs a * d).
+  { rewrite Rabs_mult. apply Rmult_le_compat_l; [apply Rabs_pos | exact H]. }
+  apply Rabs_bounds in B. lra.
+Qed.
+
+(* lo <= sqrt q <= hi for a rational bracket *)
+Lemma bracket_real q lo hi : (0 <= q)%Q -> (0 <= lo)%Q -> (lo * lo <= q)%Q -> (0 <= hi)%Q -> (q <= hi * hi)%Q ->
+  Q2R lo <= sqrt (Q2R q) <= Q2R hi.
+Proof.
+  intros Hq Hlo Hloq Hhi Hhiq. apply Q2R_nonneg in Hq, Hlo, Hhi.
+  apply Qle_Rle in Hloq, Hhiq. rewrite Q2R_mult in Hloq, Hhiq. split.
+  - rewrite <- (sqrt_square (Q2R lo) Hlo). now apply sqrt_le_1_alt.
+  - rewrite <- (sqrt_square (Q2R hi) Hhi). now apply sqrt_le_1_alt.
+Qed.
+
+(* near_signed_root is exactly |x - s sqrt q| <= tau in the reals *)
+Theorem near_signed_root_real s q x tau : (0 <= q)%Q ->
+  (near_signed_root s q x tau <-> Rabs (Q2R x - IZR s * sqrt (Q2R q)) <= Q2R tau).
+Proof.
+  intros Hq. pose proof (Q2R_nonneg q Hq) as HqR.
+  set (r := sqrt (Q2R q)). assert (Hr : 0 <= r) by apply sqrt_pos.
+  assert (Hrr : r * r = Q2R q) by (apply sqrt_sqrt; exact HqR).
+  split.
+  - intros H.
+    assert (K : forall eps, 0 < eps ->
+              Q2R x - Q2R tau <= IZR s * r + eps /\ IZR s * r - eps <= Q2R x + Q2R tau).
+    { intros eps He. set (A := Rabs (IZR s)). assert (HA : 0 <= A) by apply Rabs_pos.
+      assert (He' : 0 < eps / (A + 1)) by (apply Rdiv_lt_0_compat; lra).
+      assert (Hsmall : A * (eps / (A + 1)) <= eps).
+      { unfold Rdiv in *. assert (Hi : 0 < / (A + 1)) by (apply Rinv_0_lt_compat; lra).
+        assert (Hi1 : / (A + 1) * (A + 1) = 1) by (apply Rinv_l; lra). nra. }
+      destruct (rational_bracket r _ Hr He') as (lo & hi & Hlo & L1 & L2 & L3).
+      pose proof (Q2R_nonneg lo Hlo) as HloR.
+      assert (Hhi : (0 <= hi)%Q) by (apply Rle_Qle; rewrite Q2R_zero; lra).
+      assert (Hloq : (lo * lo <= q)%Q) by (apply Rle_Qle; rewrite Q2R_mult; nra).
+      assert (Hhiq : (q <= hi * hi)%Q) by (apply Rle_Qle; rewrite Q2R_mult; nra).
+      destruct (H lo hi Hlo Hloq Hhi Hhiq) as [B1 B2].
+      apply Qmax_cases_R in B1. apply Qmin_cases_R in B2.
+      rewrite Q2R_minus, !Q2R_mult, !Q2R_inject_Z in B1. rewrite Q2R_plus, !Q2R_mult, !Q2R_inject_Z in B2.
+      assert (Clo : Rabs (Q2R lo - r) <= eps / (A + 1)) by (apply Rabs_le; lra).
+      assert (Chi : Rabs (Q2R hi - r) <= eps / (A + 1)) by (apply Rabs_le; lra).
+      destruct (mul_close (IZR s) _ _ _ Clo) as [M1 M2]. destruct (mul_close (IZR s) _ _ _ Chi) as [M3 M4].
+      fold A in M1, M2, M3, M4.
+      split; [destruct B1 | destruct B2]; lra. }
+    apply Rabs_le. split.
+    + assert (IZR s * r <= Q2R x + Q2R tau); [|fold r; lra].
+      apply le_epsilon. intros eps He. destruct (K eps He). lra.
+    + assert (Q2R x - Q2R tau <= IZR s * r); [|fold r; lra].
+      apply le_epsilon. intros eps He. destruct (K eps He). lra.
+  - intros H lo hi Hlo Hloq Hhi Hhiq. fold r in H. apply Rabs_bounds in H.
+    destruct (bracket_real q lo hi Hq Hlo Hloq Hhi Hhiq) as [L1 L2]. fold r in L1, L2.
+    destruct (Z_le_gt_dec 0 s) as [Hs|Hs].
+    + apply IZR_le in Hs. split.
+      * eapply Qle_trans; [|apply Q.le_max_r]. apply Rle_Qle.
+        rewrite Q2R_minus, Q2R_mult, Q2R_inject_Z. assert (IZR s * r <= IZR s * Q2R hi) by nra. lra.
+      * eapply Qle_trans; [apply Q.le_min_l|]. apply Rle_Qle.
+        rewrite Q2R_plus, Q2R_mult, Q2R_inject_Z. assert (IZR s * Q2R lo <= IZR s * r) by nra. lra.
+    + assert (Hs' : IZR s <= 0) by (apply IZR_le; lia). split.
+      * eapply Qle_trans; [|apply Q.le_max_l]. apply Rle_Qle.
+        rewrite Q2R_minus, Q2R_mult, Q2R_inject_Z. assert (IZR s * r <= IZR s * Q2R lo) by nra. lra.
+      * eapply Qle_trans; [apply Q.le_min_r|]. apply Rle_Qle.
+        rewrite Q2R_plus, Q2R_mult, Q2R_inject_Z. assert (IZR s * Q2R hi <= IZR s * r) by nra. lra.
+Qed.
+
+(* hence: an OK verdict of check_test on a result case certifies |T_go - sign * sqrt(T^2_model)| <= tau in R *)
+Corollary check_test_ok_T_real op x1 x2 mu0 alt st n1 n2 T dof altout P cdfT cdfAbs r :
+  ok (check_test op x1 x2 mu0 alt st n1 n2 T dof altout P cdfT cdfAbs) -> c04_model op x1 x2 mu0 = TOk r ->
+  exists tgo, T = XFin tgo /\
+    Rabs (Q2R tgo - IZR (t_sign r) * sqrt (Q2R (t_sq r))) <= Q2R (c04_tr op x1 x2 * Qabs tgo + c04_tr op x1 x2).
+Proof.
+  intros H Em. apply check_test_ok_sound in H. unfold test_sound in H. rewrite Em in H.
+  destruct H as (_ & _ & _ & _ & tgo & dgo & pgo & ct & ca & -> & _ & _ & _ & _ & H & _).
+  exists tgo. split; [reflexivity|]. destruct (model_tres_wf _ _ _ _ _ Em) as (W & _).
+  apply (near_signed_root_real _ _ _ _ W). exact H.
+Qed.
+
+Print Assumptions near_signed_root_real.
+Print Assumptions check_test_ok_T_real.
